@@ -73,20 +73,29 @@ func (g geometry) wgOfElement(e int) int {
 	return (gz/g.WG[2])*w[0]*w[1] + (gy/g.WG[1])*w[0] + gx/g.WG[0]
 }
 
-// unifiedShare replicates Driver.distributeWGToGPUs for GPUs of 64 CUs:
+// cusOf is the number of compute units per GPU of a platform ("" = r9nano
+// timing / emulation: 64, "mi300a": 120).
+func cusOf(gpuType string) int {
+	if gpuType == "mi300a" {
+		return 120
+	}
+	return 64
+}
+
+// unifiedShare replicates Driver.distributeWGToGPUs for GPUs of `cus` CUs:
 // member i of a unified device runs the work-groups with flattened id in
 // [i*per, (i+1)*per).
-func unifiedShare(totalWGs, members int) (per int) {
-	return 64 * ((totalWGs-1)/(64*members) + 1)
+func unifiedShare(totalWGs, members, cus int) (per int) {
+	return cus * ((totalWGs-1)/(cus*members) + 1)
 }
 
 // unifiedFacts describes what a unified launch of this geometry over
 // `members` GPUs exercises: fewer work-group rows than members; a member whose
 // share is shorter than one row of work-groups and wraps around a row end; a
 // member with an empty share.
-func (g geometry) unifiedFacts(members int) (rowsLtMembers, shareWrapsRow, idleMember bool) {
+func (g geometry) unifiedFacts(members, cus int) (rowsLtMembers, shareWrapsRow, idleMember bool) {
 	x, total := g.wgs()[0], g.totalWGs()
-	per := unifiedShare(total, members)
+	per := unifiedShare(total, members, cus)
 	rowsLtMembers = g.rows() < members
 	for i := 0; i < members; i++ {
 		lo, hi := i*per, (i+1)*per
